@@ -141,4 +141,15 @@ CHECKS = {
             {"part": "dispatch", "test": "TestDispatch", "quick": {"checks": 1200, "shards": 16, "timeout": 900}, "thorough": {"checks": 12000, "shards": 16, "timeout": 6000}},
         ],
     },
+    "C12": {
+        "pkg": "c12",
+        "engine": "e2e-opkit",
+        "aux_builds": [{"pkg": "./cmd/vhook", "out": "vhook"}],
+        "technique": "property-based fault injection (rapid): generated hook scripts (exit code x output file contents) run by the real operator on a fake cluster, observed from inside the hook process",
+        "level_text": "Random sequences of scripted hook executions through the full operator; environment, files, outcome and temp directory checked per execution. Search over the fault table, not a proof.",
+        "level_note": "Trusted: scripted hook binary and its log; fake cluster; 'deleted output file' outcomes are not judged (not covered by the statement).",
+        "parts": [
+            {"part": "exec", "test": "TestExec", "quick": {"checks": 480, "shards": 16, "shrinktime": "60s", "timeout": 900}, "thorough": {"checks": 6000, "shards": 16, "shrinktime": "120s", "timeout": 6000}, "owned_schedule": False},
+        ],
+    },
 }
